@@ -11,5 +11,7 @@ Conforms(in, obs) ==
   /\ IF Flag(in, "echo") THEN obs.argvs = <<>> /\ EchoOK(in, obs.stdout, obs.exit, obs.tlines)
      ELSE SemOK(in, obs.argvs, obs.exit) /\ obs.stdout = <<>> /\ TraceLinesOK(in, obs.tlines, Len(obs.argvs))
 Describe(in) == [toks |-> Toks(in), outcomes |-> IF Toks(in).err THEN <<>> ELSE SetToSeq(B!RefOutcomes(BatchIn(in)))]
+\* input from -a FILE, runs without a command, -t and -P are described by XargsSem but fixed by no listed property
+Beyond(in) == Flag(in, "afile") \/ Flag(in, "echo") \/ Flag(in, "t") \/ ("P" \in DOMAIN in /\ in.P > 0)
 INSTANCE TraceCheck
 =============================================================================
